@@ -12,6 +12,8 @@ var smallLimits = []int64{300, 2000, 40000, 200000, 1 << 20}
 
 type genOpts struct {
 	batches, merges, restarts, emptyKey bool
+	backups                             bool // Backup calls in between (the copy is thrown away: only the source is followed)
+	bigKeys                             bool // keys of 9 000-40 000 bytes: index entries and hint records span blocks
 	ops                                 int
 	prof                                string
 	limits                              []int64
@@ -22,6 +24,9 @@ func randomWorkload(en *Env, cfg h.Cfg, nkeys int, o genOpts, reopenCfg func() h
 	dir := en.FreshDir()
 	defer en.Drop(dir)
 	u := h.PickKeys(en.R, nkeys, 5+en.R.Intn(12))
+	if o.bigKeys {
+		u = mergeKeys(en, nkeys, true)
+	}
 	vs := h.NewValues()
 	e := h.NewEng(dir, en.Work+"/scratch", cfg, u, vs, en.T)
 	en.T.Emit(h.Ev{"ev": "reset", "n": nkeys, "seed": en.Seed, "prof": o.prof})
@@ -111,7 +116,19 @@ func randomWorkload(en *Env, cfg h.Cfg, nkeys int, o genOpts, reopenCfg func() h
 		case c < 83:
 			e.Sync()
 		case c < 88 && o.merges:
-			e.Merge()
+			if o.bigKeys {
+				// every long key is live at the merge, and the merge is adopted at once
+				for bk := 1; bk <= nkeys && !e.Dead; bk++ {
+					e.Put(bk, newVal())
+				}
+			}
+			name := e.Merge()
+			if o.bigKeys && name == "ok" && o.restarts && !e.Dead {
+				e.Dump()
+				if e.Close() != "ok" || e.Open(reopenCfg()) != "ok" {
+					return
+				}
+			}
 		case c < 95 && o.restarts:
 			e.Dump()
 			if e.Close() != "ok" {
@@ -120,6 +137,14 @@ func randomWorkload(en *Env, cfg h.Cfg, nkeys int, o genOpts, reopenCfg func() h
 			nc := reopenCfg()
 			if e.Open(nc) != "ok" {
 				return
+			}
+		case c < 98 && o.backups:
+			bdir := en.FreshDir()
+			name := h.Guard(h.CallTimeout, func() error { return e.DB.Backup(bdir) })
+			e.T.Emit(h.Ev{"ev": "op", "op": "Backup", "k": 0, "v": 0, "n": 0, "a": 0, "res": 0, "err": name})
+			en.Drop(bdir)
+			if name == "panic" || name == "stuck" {
+				e.Dead = true
 			}
 		default:
 			e.Put(k, newVal())
@@ -142,8 +167,16 @@ func profMap(en *Env) {
 	for t := 0; t < traces; t++ {
 		cfg := h.CoverCfg(en.R, t, smallLimits)
 		cfgs[cfg.String()]++
+		big := t%6 == 5
+		if big {
+			cfg.Index = []string{"btree", "skiplist"}[(t/6)%2] // the index types that keep the key slice they are given
+		}
 		same := cfg
-		randomWorkload(en, cfg, 3+en.R.Intn(6), genOpts{batches: true, merges: true, restarts: true, emptyKey: true, ops: ops, prof: "map"},
+		nk := 3 + en.R.Intn(6)
+		if big {
+			nk = 5 + en.R.Intn(3) // the hint file of a merge then spans at least two blocks
+		}
+		randomWorkload(en, cfg, nk, genOpts{batches: true, merges: true, restarts: true, emptyKey: true, backups: t%2 == 1, bigKeys: big, ops: ops, prof: "map"},
 			func() h.Cfg { return same })
 	}
 	en.Summary["traces"] = traces
